@@ -73,7 +73,7 @@ def frobenius_matrices(p, mc):
     return mats
 
 
-def frobenius_power_of(w, fn, FQ12, mc, p, mats):
+def frobenius_power_of(w, fn, FQ12, mc, p, mats, args=None, pos=0):
     """(k, λ) if the one-argument function fn is x ↦ λ·x^(p^k) on every element of the degree-12 field (decided on symbolic
     coefficients: the result is compared, path by path, with Σ c_i·(w^i)^(p^k)); None when it is something else or
     outside the fragment"""
@@ -81,12 +81,14 @@ def frobenius_power_of(w, fn, FQ12, mc, p, mats):
     from ..ecalg import alg_paths, AlgState
     from ..poly import Rat
     node = fn.node
-    if len(node.args.args) != 1 or any(isinstance(n, (ast.Pow, ast.While)) for n in ast.walk(node)):
+    if any(isinstance(n, (ast.Pow, ast.While)) for n in ast.walk(node)):
         return None
     x = TowerSym([Poly.var(f"c{i}", p) for i in range(len(mc))], mc, p, FQ12)
     it = Interp(w, class_hooks=[tower_ctor_hook])
+    call_args = list(args) if args is not None else [None]
+    call_args[pos] = x
     try:
-        eps = alg_paths(w, lambda it2: it2.call_func(fn, [x], {}), AlgState(), class_hooks=[tower_ctor_hook])
+        eps = alg_paths(w, lambda it2: it2.call_func(fn, list(call_args), {}), AlgState(), class_hooks=[tower_ctor_hook])
     except AnalysisError:
         return None
     if not eps or any(pth.outcome != "return" or not isinstance(pth.value, TowerSym) for pth in eps):
@@ -151,47 +153,52 @@ def run(chk, repo, tier):
     chk.depends_on += ["C13", "C05", "C08"]
     w = World(repo)
     it0 = Interp(w)
+    pending = []
     # ---------------------------------------------------------------- R1
     for mod, O in ((REF_BN, SP.BN), (REF_BLS, SP.BLS), (OPT_BN, SP.BN), (OPT_BLS, SP.BLS)):
         f = repo.func(f"{mod}.final_exponentiate")
         p, r = O["p"], O["r"]
-        summ = {}
-        if f"{mod}.exp_by_p" in {fn.qualname for fn in repo.all_functions()}:
-            summ[f"{mod}.exp_by_p"] = lambda it, fr, args, kw, node, p=p: args[0]._mk(args[0].e * p, None if args[0].coef is None else args[0].F.pow(args[0].coef, p))
-        # other one-argument helpers of the module that are a Frobenius power on every element (conjugation, …)
+        # any call met while walking final_exponentiate that takes the formal power in one argument and concrete values in
+        # the others is tried as a map x ↦ λ·x^(p^k) on every element (conjugation, Frobenius tables, exp_by_p, …)
         mm = repo.module(mod)
-        helpers = [h for h in mm.functions.values() if h is not f and h.qualname not in summ and len(h.node.args.args) == 1
-                   and h.node.name not in ("final_exponentiate", "pairing", "miller_loop", "twist", "cast_point_to_fq12", "normalize1")]
         recognised = []
-        if helpers:
-            import ast as _ast
-            called = {n.func.id for fn_ in mm.functions.values() for n in _ast.walk(fn_.node)
-                      if isinstance(n, _ast.Call) and isinstance(n.func, _ast.Name)}
-            FQ12c = it0.eval_global(mm, "FQ12")
-            mcs = it0.class_attr(FQ12c, "FQ12_MODULUS_COEFFS")
-            mats = None
-            for h in helpers:
-                if h.node.name not in called:
-                    continue
-                if mats is None:
-                    mats = frobenius_matrices(p, mcs)
-                kl = frobenius_power_of(w, h, FQ12c, mcs, p, mats)
-                if kl is not None:
-                    k, lam = kl
-                    one = tuple(1 if j == 0 else 0 for j in range(len(mcs)))
+        state = {"mats": None, "cache": {}}
+        FQ12c = it0.eval_global(mm, "FQ12")
+        mcs = it0.class_attr(FQ12c, "FQ12_MODULUS_COEFFS")
+        one = tuple(1 if j == 0 else 0 for j in range(len(mcs)))
 
-                    def frob_summary(it, fr, args, kw, node, p=p, k=k, lam=lam, one=one):
-                        a = args[0]
-                        if not isinstance(a, ExpSym):
-                            return NotImplemented
-                        c = None if (a.coef is None and tuple(lam) == one) else a.F.mul(tuple(lam), a.F.pow(a._c(), p ** k))
-                        return a._mk(a.e * p ** k, c)
-                    summ[h.qualname] = frob_summary
-                    recognised.append(f"{h.node.name} = " + ("" if tuple(lam) == one else "λ·") + f"x^(p^{k})")
+        def frob_call(it, fn, args, kw, node, f=f, p=p, state=state, FQ12c=FQ12c, mcs=mcs, one=one, recognised=recognised):
+            if fn is f or kw:
+                return NotImplemented
+            pos = [i for i, a in enumerate(args) if isinstance(a, ExpSym)]
+            if len(pos) != 1 or any(hasattr(a, "v_binop") and not isinstance(a, (ExpSym, FieldVal)) for a in args):
+                return NotImplemented
+            i = pos[0]
+            key = (fn.qualname, i, tuple(id(a) for j, a in enumerate(args) if j != i))
+            if key not in state["cache"]:
+                if state["mats"] is None:
+                    state["mats"] = frobenius_matrices(p, mcs)
+                state["cache"][key] = frobenius_power_of(w, fn, FQ12c, mcs, p, state["mats"], args=args, pos=i)
+                if state["cache"][key] is not None:
+                    k_, lam_ = state["cache"][key]
+                    recognised.append(f"{fn.node.name} = " + ("" if tuple(lam_) == one else "λ·") + f"x^(p^{k_})")
+            kl = state["cache"][key]
+            if kl is None:
+                return NotImplemented
+            k, lam = kl
+            a = args[i]
+            c = None if (a.coef is None and tuple(lam) == one) else a.F.mul(tuple(lam), a.F.pow(a._c(), p ** k))
+            return a._mk(a.e * p ** k, c)
+        summ = {"*": frob_call}
         it = Interp(w, summaries=summ)
         x0 = ExpSym(1)
         x0.F = ExtField(p, tuple(it0.class_attr(it0.eval_global(mm, "FQ12"), "FQ12_MODULUS_COEFFS")))
-        res = it.call_func(f, [x0], {})
+        try:
+            res = it.call_func(f, [x0], {})
+        except AnalysisError as e:
+            # a helper that is no Frobenius power (or outside the fragment): undecided here; R2 may say why
+            pending.append(e)
+            continue
         E = (p ** 12 - 1) // r
         # exponents act modulo the order p^12 − 1 of the multiplicative group; a non-positive exponent would differ on 0
         same = isinstance(res, ExpSym) and (res.e - E) % (p ** 12 - 1) == 0 and res.e > 0 and res.coef is None
@@ -271,6 +278,10 @@ def run(chk, repo, tier):
             ok = same_end
             det = "same scalar 6u+2 and Frobenius steps (digit sequences differ: binary vs signed digits)"
         chk.ob("C12.R5", nm, "reference and optimized loops agree", ok, det, "")
+    if pending:
+        failed = any(not o["ok"] for o in getattr(chk, "obligations", [])) or any(not o[3] for o in getattr(chk, "obs", []))
+        if not failed:
+            raise pending[0]
 
 
 MANIFEST = {
